@@ -223,3 +223,5 @@ c("t_betabinom", params={"seed": "int", "n": "int"}, returns="arr1[int]", requir
   ensures=["len(result) == 1", "1 <= result[0] and result[0] <= n + 1"])
 c("f_betabinom", params={"seed": "int", "n": "int"}, returns="arr1[int]", requires=["seed >= 0 and n >= 1"],
   ensures=["result[0] <= n"])
+# FALSE: the built-in round and np.round agree (they do not: 0.05, 0.15 at one decimal)
+c("f_round_builtin", params={"k": "int"}, returns="arr1[real]", ensures=["result[0] == result[1]"])
